@@ -13,6 +13,23 @@ func Main(args []string) int {
 		return 2
 	}
 	switch args[0] {
+	case "cycles":
+		// print the recursion cycles that pass through no declared depth guard
+		P, err := Load("/repo")
+		if err != nil {
+			fmt.Println(err)
+			return 2
+		}
+		S, err := LoadSpecs("/repo", "/verif/contracts")
+		if err != nil {
+			fmt.Println(err)
+			return 2
+		}
+		E := NewEngine(P, S)
+		for _, x := range depthAnalysis(E, &PropSpec{}) {
+			fmt.Println(x.OK, x.Name, x.Detail)
+		}
+		return 0
 	case "dump":
 		fs := flag.NewFlagSet("dump", flag.ExitOnError)
 		repo := fs.String("repo", "/repo", "repository")
@@ -70,6 +87,7 @@ func cmdVerify(args []string) int {
 	dump := fs.String("dump", "", "directory to dump failed queries")
 	verbose := fs.Bool("v", false, "verbose")
 	dumpAll := fs.Bool("dumpall", false, "with -dump: write every query, not only the failed ones")
+	onlyLevels := fs.String("levels", "", "restrict to these facet levels (e.g. F)")
 	fs.Parse(args)
 	P, err := Load(*repo)
 	if err != nil {
@@ -85,6 +103,9 @@ func cmdVerify(args []string) int {
 	bad := 0
 	for _, name := range fs.Args() {
 		for _, lvl := range E.LevelsOf(name) {
+			if *onlyLevels != "" && !strings.Contains(*onlyLevels, levelNames[lvl]) {
+				continue
+			}
 			if ct := E.S.Contracts[name]; ct != nil && strings.Contains(ct.AssumeFacets, levelNames[lvl]) {
 				fmt.Printf("%s [%s]: assumed (assumefacet)\n", name, levelNames[lvl])
 				continue
